@@ -57,13 +57,15 @@ pub fn atoms(effect: Effect) -> Vec<Vec<Atom>> {
     let ctx_missing = E::attr(v(Var::Context), "missing");
     let sat = vec![
         mk("sat:scope", PR::Eq(Ref::Uid(ua())), PR::Any, vec![], None),
-        mk("sat:when", PR::Any, PR::Any, vec![(true, E::bin(BinOp::Eq, E::attr(v(Var::Principal), "age"), E::Long(3)))], None),
+        // observes an extension-typed attribute (a string when the entities were parsed without the schema)
+        mk("sat:when", PR::Any, PR::Any, vec![(true, E::and(E::bin(BinOp::Eq, E::attr(v(Var::Principal), "age"), E::Long(3)), E::ext("isIpv4", vec![E::attr(v(Var::Resource), "ip")])))], None),
         mk("sat:unless", PR::Any, PR::Any, vec![(false, E::bin(BinOp::Eq, E::attr(v(Var::Context), "n"), E::Long(2)))], None),
         mk("sat:link", PR::Eq(Ref::Slot), PR::In(Ref::Slot), vec![], Some((Some(ua()), Some(gh())))),
     ];
     let unsat = vec![
         mk("unsat:scope", PR::Eq(Ref::Uid(ub())), PR::Any, vec![], None),
-        mk("unsat:when", PR::Any, PR::Any, vec![(true, E::bin(BinOp::Eq, E::attr(v(Var::Resource), "owner"), E::Ent(ub())))], None),
+        // observes an entity-typed attribute (a record when the entities were parsed without the schema)
+        mk("unsat:when", PR::Any, PR::Any, vec![(true, E::bin(BinOp::Neq, E::attr(v(Var::Resource), "owner"), E::Ent(ua())))], None),
         mk("unsat:unless", PR::Any, PR::Any, vec![(false, E::has(v(Var::Context), "n"))], None),
         mk("unsat:link", PR::In(Ref::Slot), PR::Any, vec![], Some((Some(dd()), None))),
     ];
@@ -440,7 +442,8 @@ pub fn context_js(c: &BTreeMap<String, Val>, implicit: bool) -> J {
     J::Object(c.iter().map(|(k, x)| (k.clone(), val_js(x, implicit))).collect())
 }
 
-/// 3 requests that conform to W and 3 that violate it (so that validateRequest matters)
+/// 3 requests that conform to W, 3 that violate it (so that validateRequest matters), and one
+/// asked against a store that violates W (so that schema-based entity parsing matters)
 pub fn requests() -> Vec<(&'static str, Req)> {
     let ctx = |v: Vec<(&str, Val)>| -> BTreeMap<String, Val> { v.into_iter().map(|(k, x)| (k.to_string(), x)).collect() };
     vec![
@@ -450,7 +453,24 @@ pub fn requests() -> Vec<(&'static str, Req)> {
         ("invalid:principal-type", Req { principal: gg(), action: view(), resource: dd(), context: ctx(vec![("n", Val::Long(1))]) }),
         ("invalid:context-type", Req { principal: ua(), action: view(), resource: dd(), context: ctx(vec![("n", Val::Str("one".into()))]) }),
         ("invalid:unknown-action", Req { principal: ua(), action: u("Action", "delete"), resource: dd(), context: ctx(vec![]) }),
+        // asked against a store that violates the schema (see `store_for`)
+        ("valid:view/nonconforming-store", req1()),
     ]
+}
+
+/// index of the request that is asked against the non-conforming store
+pub const REQ_BAD_STORE: usize = 6;
+
+/// the entity store a request is asked against: store1, except for the last request, whose
+/// store has a string where W declares `age: Long` (accepted without a schema, rejected with one)
+pub fn store_for(req: usize) -> Store {
+    let mut s = store1();
+    if req == REQ_BAD_STORE {
+        if let Some(e) = s.ents.get_mut(&ua()) {
+            e.attrs.insert("age".into(), Val::Str("3".into()));
+        }
+    }
+    s
 }
 
 // ---------------------------------------------------------------------------------------
@@ -622,7 +642,7 @@ pub fn auth_call(c: &AuthCase, reqs: &[(&'static str, Req)]) -> (J, Plan) {
         }
     }
     m.insert("policies".into(), pols);
-    m.insert("entities".into(), entities_js(&store1(), c.implicit));
+    m.insert("entities".into(), entities_js(&store_for(c.req), c.implicit));
     (J::Object(m), plan)
 }
 
@@ -630,7 +650,7 @@ pub fn auth_call(c: &AuthCase, reqs: &[(&'static str, Req)]) -> (J, Plan) {
 #[derive(Default)]
 struct Memo {
     schemas: HashMap<SchemaKind, Result<Option<cedar_policy::Schema>, String>>,
-    entities: HashMap<(SchemaKind, bool), Result<cedar_policy::Entities, String>>,
+    entities: HashMap<(SchemaKind, bool, bool), Result<cedar_policy::Entities, String>>,
     requests: HashMap<(SchemaKind, bool, bool, usize), Result<cedar_policy::Request, String>>,
 }
 
@@ -645,8 +665,8 @@ pub fn api_env(schema_kind: SchemaKind, implicit: bool, validates: bool, req: us
         let schema = m.schemas.entry(schema_kind).or_insert_with(|| api_schema(schema_kind)).clone()?;
         let ents = m
             .entities
-            .entry((schema_kind, implicit))
-            .or_insert_with(|| cedar_policy::Entities::from_json_value(entities_js(&store1(), implicit), schema.as_ref()).map_err(|e| format!("entities: {e}")))
+            .entry((schema_kind, implicit, req == REQ_BAD_STORE))
+            .or_insert_with(|| cedar_policy::Entities::from_json_value(entities_js(&store_for(req), implicit), schema.as_ref()).map_err(|e| format!("entities: {e}")))
             .clone()?;
         let req = m
             .requests
@@ -749,7 +769,7 @@ pub fn check_auth(ctx: &Ctx, c: &AuthCase, reqs: &[(&'static str, Req)], l: &mut
     }
     // --- third opinion: reference authorizer (independent of cedar's evaluator)
     if let (Ok(want), true) = (&api, ids_distinct(&plan)) {
-        let r = authorize(&plan.insts, &reqs[c.req].1, &store1());
+        let r = authorize(&plan.insts, &reqs[c.req].1, &store_for(c.req));
         if want.core() != Some(canon_ref(&r)) {
             bad.push((format!("authz:api-vs-reference:{tag}"), format!("{:?} request {}: reference authorizer gives {r:?}, API gives {want:?}", c.labels(), reqs[c.req].0)));
         }
@@ -941,7 +961,7 @@ pub fn run(tier: Tier, replay_file: Option<&str>) -> i32 {
         "case = one front-end call (FFI authorization call: tuple of behaviour atoms x shape x spelling x schema syntax x validateRequest x data form x request; validation / format / check-parse / conversion call: one table entry x its settings; cache: one (history, operation) transition; CLI: one command line); non-trivial = the call got past input assembly on the oracle side (authorization reached with >= 1 policy, validation ran, conversion/format succeeded, a cache transition after >= 1 registration, a CLI run that produced a decision or output)",
         json!({
             "tier": tier.name(),
-            "authz": {"max_policies": tier.pick(2, 3), "shapes": 5, "spellings": tier.pick("1 rotating (map shapes)", "3 (map shapes)"), "schema": ["none", "json", "cedar"], "validateRequest": ["absent", "true", "false"], "data_forms": "explicit; schema-implicit when a schema is given", "requests": 6},
+            "authz": {"max_policies": tier.pick(2, 3), "shapes": 5, "spellings": tier.pick("1 rotating (map shapes)", "3 (map shapes)"), "schema": ["none", "json", "cedar"], "validateRequest": ["absent", "true", "false"], "data_forms": "explicit; schema-implicit when a schema is given", "requests": "6 on the conforming store + 1 on a store that violates the schema"},
             "validate": format!("50 policy sets (40 single policies: valid / ill-typed / impossible / warning, 4 template+link pairs, 4 multi-policy sets, unparseable, empty) x 4 schemas (W in both syntaxes, a second schema, an unparseable one) x {{settings absent, strict, permissive, partial}} x {} policy shapes", tier.pick(2, 3)),
             "format": "51 texts x {defaults, 4 (lineWidth, indentWidth) configs}",
             "check_parse": "46 policy-set documents, 26 schemas, 24 entity documents x {no schema, W cedar, W json, unparseable schema}, 32 contexts x the same 4, 72 scope-variable triples",
